@@ -59,7 +59,16 @@ pub fn expand(stratum: u8, seed: u64, n: usize) -> Vec<[f32; 3]> {
 impl Case {
     pub fn pixels(&self) -> Vec<[f32; 3]> {
         match &self.px {
-            Px::Seeded { stratum, seed } => expand(*stratum, *seed, self.w * self.h),
+            Px::Seeded { stratum, seed } => {
+                let mut px = expand(*stratum, *seed, self.w * self.h);
+                if seed % 3 == 0 {
+                    let (p, to) = (self.p, self.to_709);
+                    let fb = move |q: [f32; 3]| -> Option<[f32; 3]> { lib_convert(p, to, &[q], 1, 1).ok().map(|o| o[0]) };
+                    let dom = |q: [f32; 3]| -> bool { q.iter().all(|x| x.is_finite() && *x >= -0.5 && *x <= 2.0) };
+                    correlate_px(&mut px, *seed, Some(&fb), &dom);
+                }
+                px
+            }
             Px::Explicit(v) => v.clone(),
         }
     }
